@@ -106,32 +106,25 @@ theorem temp_range_no_variables_dict (d : Poly) (hd : ∀ kv ∈ d, kv.1 = []) (
     tempRange (.raw d) ps pe spin = .ok (.zero, .zero) :=
   tempRange_raw_const hd h0 h1 h2 spin
 
-/-- **No variables, object on the boolean path (full strength).**  With `spin = False` only the terms of
-the object are read: if its current keys are all `()`, the result is `(0, 0)` whatever its history. -/
-theorem temp_range_no_variables_bool_object (κ : Kind) (d : Poly) (es : List Edit) (s : MState)
+/-- **No variables, model object (full strength).**  An object of any of the ten types whose current keys
+are all `()` — whatever its history, in particular after terms cancelled and the cached `_variables` went
+stale — gives `(0, 0)` for every admissible probability pair and either spin flag. -/
+theorem temp_range_no_variables_object (κ : Kind) (d : Poly) (es : List Edit) (s : MState)
     (hb : buildObj κ d es = .ok s) (hs : ∀ kv ∈ s.p, kv.1 = []) (ps pe : Rat)
-    (h0 : 0 ≤ pe) (h1 : pe ≤ ps) (h2 : ps < 1) :
-    tempRange (.obj κ d es) ps pe false = .ok (.zero, .zero) :=
-  tempRange_obj_bool_const hb hs h0 h1 h2
-
-/-- **No variables, object on the spin path — PARTIAL.**  The property asks for `(0, 0)` whenever the current
-keys are all `()`; the code reads the cached `_variables`, so the proof forces the stronger hypothesis that
-the *cache* is empty (no label was ever stored with a non-zero value).  `temp_range_value_error_iff`
-below shows the hypothesis cannot be weakened: candidate defect D6. -/
-theorem temp_range_no_variables_object_partial (κ : Kind) (d : Poly) (es : List Edit) (s : MState)
-    (hb : buildObj κ d es = .ok s) (hv : s.vars = []) (ps pe : Rat)
     (h0 : 0 ≤ pe) (h1 : pe ≤ ps) (h2 : ps < 1) (spin : Bool) :
     tempRange (.obj κ d es) ps pe spin = .ok (.zero, .zero) :=
-  tempRange_obj_novars hb hv h0 h1 h2 spin
+  tempRange_obj_const hb hs h0 h1 h2 spin
 
-/-- **Exactly when the model raises on admissible probabilities (D6).**  `s` is what the function reads
-(terms after `pubo_to_puso` if `spin = False`, and the variable set: cache of an object / labels of a
-dict's keys).  It raises — always `ValueError` — iff that variable set is non-empty while no term has a
-label, i.e. iff the cache is stale.  In every other case it returns (`temp_range_deltas` applies). -/
-theorem temp_range_value_error_iff (inp : Input) (spin : Bool) (s : MState) (ps pe : Rat) (e : Err)
-    (hs : readModel inp spin = .ok s) (h0 : 0 ≤ pe) (h1 : pe ≤ ps) (h2 : ps < 1) :
-    tempRange inp ps pe spin = .error e ↔ e = .value ∧ s.vars ≠ [] ∧ ∀ kv ∈ s.p, kv.1 = [] :=
-  tempRange_error_iff hs h0 h1 h2
+/-- **The function never raises on admissible probabilities.**  For every plain dict and every model
+object that exists (its constructor and edits did not raise), either spin flag and every admissible
+probability pair, `tempRange` returns a pair — to which `temp_range_deltas` / `temp_range_ordered` apply.
+(Before the repair of defect D6 the code read the stale cache and raised `ValueError` on cancelled
+models.) -/
+theorem temp_range_never_raises (inp : Input) (spin : Bool) (ps pe : Rat)
+    (hb : ∀ κ d es, inp = .obj κ d es → ∃ s, buildObj κ d es = .ok s)
+    (h0 : 0 ≤ pe) (h1 : pe ≤ ps) (h2 : ps < 1) :
+    ∃ t0 tf, tempRange inp ps pe spin = .ok (t0, tf) :=
+  tempRange_never_raises inp spin hb h0 h1 h2
 
 /-! ## Non-vacuity: concrete instances -/
 
@@ -165,13 +158,16 @@ example : tempRange (.raw [([0], 1), ([0, 1], -2)]) (1/2) 0 false = .ok (.ofDelt
 /-- no variables -/
 example : tempRange (.raw [([], 5)]) (1/2) (1/100) false = .ok (.zero, .zero) := by decide +kernel
 
-/-- **D6, concretely**: `H = QUSO({(0,): 1}); H[(0,)] -= 1` has no terms, but its cache is `{0}`:
-the model (like the code) raises `ValueError` instead of returning `(0, 0)`. -/
+/-- **regression input of the repaired defect D6**: `H = QUSO({(0,): 1}); H[(0,)] -= 1` has no terms while its
+cache is `{0}`; the variables are read from the keys, so the result is `(0, 0)` -/
 example : buildObj .quso [([0], 1)] [.addE [0] (-1)] = .ok ⟨[], [0]⟩ := by decide +kernel
-example : tempRange (.obj .quso [([0], 1)] [.addE [0] (-1)]) (1/2) (1/100) true = .error .value := by
+example : tempRange (.obj .quso [([0], 1)] [.addE [0] (-1)]) (1/2) (1/100) true = .ok (.zero, .zero) := by
   decide +kernel
 /-- the same through `pubo_to_puso` on a raw boolean dict with a repeated label -/
-example : tempRange (.raw [([0], 1), ([0, 0], -1)]) (1/2) (1/100) false = .error .value := by
+example : tempRange (.raw [([0], 1), ([0, 0], -1)]) (1/2) (1/100) false = .ok (.zero, .zero) := by
   decide +kernel
+/-- a stale label next to live ones does not disturb the result: `QUSO({(0,):1,(1,):3}); H[(0,)] -= 1` -/
+example : tempRange (.obj .quso [([0], 1), ([1], 3)] [.addE [0] (-1)]) (1/2) (1/100) true
+    = .ok (.ofDelta 6, .ofDelta 6) := by decide +kernel
 
 end Qv.C15
